@@ -190,12 +190,13 @@ ImecConfigs == UNION {
         rg \in {50, 60, 62}, mi \in {-1, 512, 2048, 8192}} : n \in 1..MaxChans}
 ImecOK(m) == /\ Len(m.imro) = (m.nSaved - m.aplfsy[3]) + 1
              /\ (m.maxInt = -1 => m.prbType \in {-1, 0})        \* SpikeGLX writes imMaxInt for every newer probe
+\* (typeEnabled TRUE: the nidq stream of a phase-3A rig, whose header carries `typeEnabled=imec,nidq`)
 NidqConfigs ==
-    {[typeThis |-> "nidq", typeEnabled |-> FALSE, prbType |-> -1, port |-> FALSE, slot |-> FALSE,
+    {[typeThis |-> "nidq", typeEnabled |-> te, prbType |-> -1, port |-> FALSE, slot |-> FALSE,
       aplfsy |-> <<>>, nSaved |-> t[1] + t[2] + t[3] + t[4], imro |-> <<>>, rangeC |-> rg, maxInt |-> mi,
       mnmaxadw |-> t, mnGain |-> g1, maGain |-> g2] :
         t \in (0..MaxNi) \X (0..MaxNi) \X (0..MaxNi) \X (0..MaxNi), rg \in {500, 200}, mi \in {-1, 32768},
-        g1 \in {1, 200}, g2 \in {1, 10}}
+        g1 \in {1, 200}, g2 \in {1, 10}, te \in BOOLEAN}
 Configs == {m \in ImecConfigs : ImecOK(m)} \cup {m \in NidqConfigs : m.nSaved > 0}
 
 Init == c \in Configs
